@@ -10,6 +10,7 @@ Inductive kop :=
 | KMut (id : N)        (* the directory becomes snapshot id *)
 | KTick (dt : Z)       (* milliseconds *)
 | KList (p : N)
+| KProbe (p : N)       (* HTTP HEAD / Gopher+ ! on the directory *)
 | KDamage.             (* cache file replaced by undecodable bytes, mtime = now *)
 
 (* snapshots stand for directory contents: D = L = N, gen = identity;
@@ -22,6 +23,7 @@ Definition to_op (o : kop) : op N N :=
   | KMut i => Mutate (fun _ => i)
   | KTick d => Tick d
   | KList p => List p
+  | KProbe p => Probe p
   | KDamage => Damage []
   end.
 
